@@ -257,6 +257,7 @@ class Atomic : public AtomicIntegralBase<T> {
 
  public:
   using Base::Base;
+  using AtomicWait<T>::operator=;
 };
 
 template <typename U>
@@ -265,6 +266,7 @@ class Atomic<U*> : public AtomicBase<U*> {
 
  public:
   using Base::Base;
+  using AtomicWait<U*>::operator=;
 
   U* fetch_add(std::ptrdiff_t arg, std::memory_order) noexcept {
     auto val = _value;
